@@ -10,8 +10,8 @@ import (
 
 func init() {
 	register(&propDef{
-		ID:  "C01",
-		Run: ruleC01,
+		ID:          "C01",
+		Run:         ruleC01,
 		Explanation: "Decides that the code has no place through which a zone literal can reach the output unmodified other than the exemptions the property names (structural necessary condition of C01): (R1) the line gate covers COMMAND/QUERY/WRITE/'Slow query', the three command documents are dispatched under lookup/type guards only, and the command walker dispatches every zone key to a walker whose result is stored back under the same key; (R2) every store into an output container and every return of a walker is either sanitised or a raw pass-through justified by one of the guard classes J1-J10 (exempt table entry, field-name position holding a non-document, namespace position, '$'-prefixed string, shape mismatch, nil, selective mode, number/boolean with the flag off, in-place array fully overwritten); (R3) every walker loop covers the whole input container and never leaves an iteration early or without a store; (R4) Exempt/FieldName/Namespace typed table positions are confined to a reviewed allow-list, reconstructed by abstract interpretation of the initialisers; (R5) each redaction flag's variable is the argument of its setter, the setter stores into the global the walkers read, before any processing call; (R6) the remote address is replaced by a constant. NOT decided: that the lookup routes every grammar position to the intended table entry, JSON escaping, the grammar coverage of the tables.",
 		RuleText:    "obligations = gate disjuncts, dispatch sites, zone keys, every sink instruction of the walker functions (guards computed from dominating branch edges, short-circuit phis and disjunctive joins), walker loops (path enumeration with store counting), table entries, flag->setter->global chains",
 	})
